@@ -11,7 +11,10 @@ CACHE = os.path.join(VERIF, ".cache")
 COQDIR = os.path.join(VERIF, "coq")
 HARNESS = os.path.join(VERIF, "harness")
 TARGET = os.path.join(CACHE, "target")
-NPROC = 16
+def _cpus():
+    try: return max(1, len(os.sched_getaffinity(0)))
+    except Exception: return os.cpu_count() or 1
+NPROC = max(2, min(16, _cpus()))      # coqc processes in flight: never more than the CPUs this process may use
 
 os.makedirs(CACHE, exist_ok=True)
 
@@ -193,7 +196,10 @@ def build_harness(profile="debug"):
 def coq_make(target, timeout=1500):
     """Build one .vo (and its dependencies) with the generated Makefile."""
     with Lock("coq"):
-        rc, out = sh("./mkproject.sh", cwd=COQDIR, timeout=120)
+        try:
+            rc, out = sh("./mkproject.sh", cwd=COQDIR, timeout=300)
+        except subprocess.TimeoutExpired:
+            rc, out = sh("./mkproject.sh", cwd=COQDIR, timeout=900)
         if rc != 0:
             return rc, out
         for attempt in range(3):
